@@ -708,6 +708,21 @@ func AliveDaemonSites() []string {
 	return r
 }
 
+// AliveDaemonInfo returns id -> last scheduling site of every spawned thread that has not finished.
+func AliveDaemonInfo() map[int]string {
+	s := cur()
+	r := map[int]string{}
+	if s == nil {
+		return r
+	}
+	for _, t := range s.threads {
+		if t.daemon && !t.done {
+			r[t.id] = t.site
+		}
+	}
+	return r
+}
+
 // AliveDaemons returns how many spawned (daemon) threads have not finished yet. Callable from a
 // logical thread during a controlled execution.
 func AliveDaemons() int {
